@@ -2,7 +2,7 @@
    This file only pins statements; proofs live in Proof/. *)
 From Coq Require Import NArith ZArith List.
 From KT Require Import Gen.Generated Gen.Alphabet Gen.GeneratedFacts Model.Kmer Model.Ops Model.Rows Model.Flt.
-From KT Require Import Proof.Oligo Proof.RowsProof.
+From KT Require Import Proof.Oligo Proof.RowsProof Proof.FmtProof Proof.LayoutProof.
 Import ListNotations.
 Open Scope N_scope.
 
@@ -32,6 +32,13 @@ Theorem C04_entry_definition :
     if norm then bits (Z.of_nat c) (Z.max 1 (Z.of_nat t)) else bits_of_Z (Z.of_nat c).
 Proof. reflexivity. Qed.
 
+(* the printed value: count / total with count <= total is rendered by {:.6} as exactly 8 characters
+   (0.xxxxxx or 1.000000): the binary64 quotient lies in [0, 1] (Flocq Bdiv_correct) and its value times 10^6,
+   rounded half to even, is at most 10^6 *)
+Theorem C04_printed_frequency_has_eight_characters :
+  forall t c, (c <= Nat.max 1 t)%nat -> (Z.of_nat (Nat.max 1 t) < 2 ^ 53)%Z -> length (entry_text true t c) = 8%nat.
+Proof. exact entry_text_length. Qed.
+
 Theorem C04_all_zero_row_without_windows :
   forall k s, oligo_total_spec k s = 0%nat -> Forall (fun c => c = 0%nat) (oligo_counts_spec k s).
 Proof. exact oligo_spec_zero. Qed.
@@ -56,6 +63,7 @@ Print Assumptions C04_vector_is_canonical_histogram.
 Print Assumptions C04_one_value_per_column.
 Print Assumptions C04_entries_sum_to_window_count.
 Print Assumptions C04_entry_definition.
+Print Assumptions C04_printed_frequency_has_eight_characters.
 Print Assumptions C04_all_zero_row_without_windows.
 Print Assumptions C04_invariant_under_reverse_complement.
 Print Assumptions C04_invariant_under_case_and_U.
